@@ -66,11 +66,25 @@ class Monitor:
         self.dicts = []      # [label, dict, snapshot]
 
     # ---- arrays --------------------------------------------------------------------------------
-    def register(self, a, label="arr"):
-        """Take ownership of a freshly built array (not shared with anybody)."""
+    def register(self, a, label="arr", layouts=False):
+        """Take ownership of a freshly built array (not shared with anybody).  With `layouts`, the array
+        handed to funsor is sometimes a broadcast (always read-only) view or Fortran-ordered."""
         a = np.array(a)                      # private copy owning its data
         base = a
-        if a.ndim >= 1 and a.shape[0] >= 1 and self.rng.random() < 0.25:
+        u = self.rng.random()
+        if layouts and a.ndim >= 1 and a.shape[0] >= 2 and u < 0.08:
+            # a broadcast view: numpy makes these read-only in either mode; all leading slices share memory
+            base = np.array(a[:1])
+            a = np.broadcast_to(base, a.shape)
+            rec = [label, a, digest(a), base, digest(base)]
+            if self.mode == "ro":
+                base.flags.writeable = False
+            self.arrays.append(rec)
+            return a
+        if layouts and a.ndim >= 2 and u < 0.16:
+            a = np.asfortranarray(a)          # non C-contiguous, owns its data
+            base = a
+        elif a.ndim >= 1 and a.shape[0] >= 1 and u < 0.40:
             # hand funsor a strided *view* of a bigger owned base
             big = np.zeros((2 * a.shape[0],) + a.shape[1:], dtype=a.dtype)
             big[1::2] = 7
@@ -173,17 +187,48 @@ def snap(x, memo):
 class B:
     """What a program sees: a PRNG, array factory, funsor holder."""
 
-    def __init__(self, mon, rng):
+    EDGE_VALUES = (float("-inf"), float("-inf"), float("-inf"), float("inf"), 0.0)
+    EDGE_DENSITIES = ("one", "some", "all")
+
+    def __init__(self, mon, rng, edge="auto"):
         self.mon = mon
         self.rng = rng
         self.npr = np.random.RandomState(rng.randrange(2 ** 31))
+        # edge-value regime of this run: None (ordinary data) or (value, density).  Leaf arrays of the
+        # float kinds get that value in one / some / all cells (never NaN).
+        u, v, d = rng.random(), rng.choice(self.EDGE_VALUES), rng.choice(self.EDGE_DENSITIES)
+        if edge == "auto":
+            edge = None if u < 0.5 else (v, d)
+        self.edge = edge
         self.declined = 0
         self.evaluated = 0
         self.decl_kinds = {}
 
-    def arr(self, shape, kind="real", label="arr"):
+    def inject(self, a, always=None):
+        spec = always or self.edge
+        if spec is None or a.size == 0 or a.dtype.kind != "f":
+            return a
+        value, density = spec
+        a = np.array(a, dtype=a.dtype)
+        flat = a.reshape(-1)
+        if density == "one":
+            flat[self.npr.randint(flat.size)] = value
+        elif density == "some":
+            mask = self.npr.uniform(size=flat.size) < 0.35
+            if not mask.any():
+                mask[self.npr.randint(flat.size)] = True
+            flat[mask] = value
+        else:
+            flat[:] = value
+        return a
+
+    def arr(self, shape, kind="real", label="arr", edge=True):
         shape = tuple(shape)
         r = self.npr
+        if kind == "logp":           # log-probabilities with impossible cells, in every regime
+            a = np.asarray(r.randn(*shape) if shape else np.array(r.randn()))
+            a = self.inject(a, always=(float("-inf"), self.rng.choice(("one", "some", "some", "all"))))
+            return self.mon.register(a, label, layouts=True)
         if kind == "real":
             a = r.randn(*shape) if shape else np.array(r.randn())
         elif kind == "pos":
@@ -204,7 +249,10 @@ class B:
             a = np.tril(m, -1) + np.eye(shape[-1]) * (np.abs(m) + 0.5)
         else:
             raise ValueError(kind)
-        return self.mon.register(np.asarray(a), label)
+        a = np.asarray(a)
+        if edge and kind in ("real", "pos", "unit", "smallint"):
+            a = self.inject(a)
+        return self.mon.register(a, label, layouts=kind in ("real", "pos", "unit", "smallint", "bool"))
 
     def own(self, a, label="arr"):
         return self.mon.register(a, label)
@@ -255,10 +303,10 @@ class B:
         bshape = tuple(s for _, s in int_ns)
         dim = sum(int(np.prod(sh)) if sh else 1 for _, sh in real_ns)
         rank = dim if self.rng.random() < 0.7 else dim + 1
-        prec_sqrt = self.arr(bshape + (dim, rank), "real")
+        prec_sqrt = self.arr(bshape + (dim, rank), "real", edge=False)
         if rank == dim:
             prec_sqrt = self.own(np.asarray(prec_sqrt) + 2.0 * np.eye(dim))
-        white_vec = self.arr(bshape + (rank,), "real")
+        white_vec = self.arr(bshape + (rank,), "real", edge=self.rng.random() < 0.3)
         inputs = self.inputs(int_ns)
         for n, sh in real_ns:
             inputs[n] = Reals[sh] if sh else Real
@@ -987,9 +1035,51 @@ def p_cat_domains(b):
     b.t(lambda: sum_product(ops.add, ops.mul, fs, eliminate=frozenset("abcq"), plates=frozenset("pq")))
 
 
-def run_program(name, mon, rng):
+@program
+def p_logspace_contraction(b):
+    """Log-space contractions whose operands do / do not mention the reduced variables, with -inf cells."""
+    from funsor.einsum import einsum as feinsum
+    fi = b.tensor([("i", 3)], (), kind="logp")
+    fij = b.tensor([("i", 3), ("j", 2)], (), kind="logp")
+    fj = b.tensor([("j", 2)], (), kind="logp")
+    fjk = b.tensor([("j", 2), ("k", 2)], (), kind="logp")
+    f0 = b.tensor([], (), kind="logp")
+    sizes = {"i": 3, "j": 2, "k": 2}
+    ops_ = [fi, fij, fj, fjk, f0]
+    for _ in range(8):
+        l, r = b.rng.sample(ops_, 2)
+        names = sorted(set(l.inputs) | set(r.inputs) | {"k"})
+        rv = frozenset(Variable(n, Bint[sizes[n]]) for n in b.rng.sample(names, b.rng.randint(1, len(names))))
+        for red, bin_ in ((ops.logaddexp, ops.add), (ops.max, ops.add), (ops.min, ops.add)):
+            b.t(lambda: Contraction(red, bin_, rv, l, r))
+        b.t(lambda: Contraction(ops.logaddexp, ops.add, rv, l))
+        b.t(lambda: (l + r).reduce(ops.logaddexp, frozenset(v.name for v in rv) & (set(l.inputs) | set(r.inputs))))
+    b.t(lambda: Contraction(ops.logaddexp, ops.add, frozenset({Variable("j", Bint[2])}), fi, fij))
+    b.t(lambda: Contraction(ops.logaddexp, ops.add, frozenset({Variable("j", Bint[2])}), fij, fi))
+    b.t(lambda: Contraction(ops.logaddexp, ops.add, frozenset({Variable("j", Bint[2])}), fi, fij, fjk))
+    for eq, args in (("i,ij->i", (fi, fij)), ("i,ij->", (fi, fij)), ("ij,j,jk->ik", (fij, fj, fjk)), ("i,j->ij", (fi, fj)),
+                     (",i->i", (f0, fi))):
+        for backend in ("funsor.einsum.numpy_log", "funsor.einsum.numpy_map"):
+            b.t(lambda: feinsum(eq, *args, backend=backend))
+    b.t(lambda: sum_product(ops.logaddexp, ops.add, [fi, fij, fjk], eliminate=frozenset("jk"), plates=frozenset()))
+    b.t(lambda: sum_product(ops.logaddexp, ops.add, [fi, fij, fjk], eliminate=frozenset("ijk"), plates=frozenset("k")))
+    with lazy:
+        e = (fi + fij + fjk).reduce(ops.logaddexp, frozenset(["j", "k"]))
+    b.hold(e)
+    b.t(lambda: reinterpret(apply_optimizer(e)))
+    b.t(lambda: reinterpret(e))
+    # linear space with exact zeros
+    gi = b.tensor([("i", 3)], (), kind="unit")
+    gij = b.tensor([("i", 3), ("j", 2)], (), kind="unit")
+    b.t(lambda: Contraction(ops.add, ops.mul, frozenset({Variable("j", Bint[2])}), gi, gij))
+    b.t(lambda: feinsum("i,ij->i", gi, gij, backend="numpy"))
+    b.t(lambda: feinsum("i,ij->i", gi.log(), gij.log(), backend="funsor.einsum.numpy_log"))
+
+
+def run_program(name, mon, rng, edge="auto"):
     """Run one program.  Returns (status, info): status in ok | declined | violation | harness-bug."""
-    b = B(mon, rng)
+    mon.rng = rng          # layout choices of this program's arrays come from its own PRNG (exact replay)
+    b = B(mon, rng, edge)
     mon.last_b = b
     try:
         with np.errstate(all="ignore"):
